@@ -57,7 +57,10 @@ def cases(draw, tier="quick", kind=None):
         us = draw(S.uri_pool(sum(sizes), sum(sizes)))
         data, k = [], 0
         for p, n in zip(ps, sizes):
-            data.append([p, us[k:k + n]])
+            lst = us[k:k + n]
+            if n > 1 and draw(st.integers(0, 3)) == 0:
+                lst = lst + [lst[draw(st.integers(1, n - 1))]]  # a non-first URI prefix listed twice: still one synonym
+            data.append([p, lst])
             k += n
         case["data"] = data
     elif kind == "reverse":
@@ -66,6 +69,10 @@ def cases(draw, tier="quick", kind=None):
         case["data"] = [[u, draw(st.sampled_from(ps))] for u in us]
     elif kind == "epm":
         case["data"] = draw(S.record_sets(delimiter=":", max_records=5, max_syn=3, patterns=True, prefix_no_delimiter=False))
+        for r in case["data"]:  # a synonym listed twice inside one record is still one synonym
+            for key in ("prefix_synonyms", "uri_prefix_synonyms"):
+                if r[key] and draw(st.integers(0, 4)) == 0:
+                    r[key] = r[key] + [r[key][0]]
         case["omit_empty"] = draw(st.booleans())
     elif kind == "jsonld":
         ps = [p for p in draw(_strs(S.CURIE_ALPHA + "@", 0, 7)) ]
@@ -168,7 +175,7 @@ def check(case, stats: Stats) -> None:
         convs.update({"str-path": s, "Path": pth})
         free = False
     elif kind == "priority":
-        expected = [_rec(p, us[0], us=us[1:]) for p, us in data]
+        expected = [_rec(p, us[0], us=list(dict.fromkeys(us[1:]))) for p, us in data]
         build = lambda d: Converter.from_priority_prefix_map({p: list(us) for p, us in d})  # noqa: E731
         convs = {"object": build(data), "shuffled": build(shuffled)}
         s, pth = _via_files({p: list(us) for p, us in data}, Converter.from_priority_prefix_map, kind)
